@@ -800,6 +800,175 @@ where
     | _ :: _, [] => false
     | x :: xs, y :: ys => if x == y then isSubseqS xs ys else isSubseqS (x :: xs) ys
 
+/-! ### C09 -/
+
+structure C09Sock where
+  host : Nat
+  slot : Nat
+  bindIp : String            -- "any" | "lo"
+  port : Nat
+  connected : Option String := none
+  bcast : Bool := false
+  mloop : Bool := true
+  sinceStep : Nat := 0
+  connStep : Nat := 0        -- step of the last connect() on it
+  disturbed : Bool := false  -- connected / dropped / re-bound during its life: excluded from completeness
+
+structure C09Send where
+  id : Nat
+  srcHost : Nat
+  origin : String
+  dst : String
+  payload : String
+  bcastOn : Bool
+  mloop : Bool
+  members : List (Nat × Nat)     -- (host, port) members of the group at send time
+  step : Nat
+
+structure C09St where
+  socks : List C09Sock := []
+  groups : List ((String × Nat) × List (Nat × Nat)) := []   -- (group ip token, port) ↦ member (host, port)
+  sends : List C09Send := []
+  got : List (Nat × Nat × Nat) := []    -- (host, slot, id)
+  everDropped : List (Nat × Nat) := []  -- (host, port) sockets that were dropped at some point
+  blindReads : List (Nat × Nat) := []   -- sockets that consumed a datagram with a buffer too small to show its id
+  step : Nat := 0
+  res : OResult := {}
+
+def C09St.fail (st : C09St) (ln : Nat) (msg : String) : C09St :=
+  if st.res.ok then { st with res := { ok := false, line := ln, detail := msg } } else st
+
+def c09Sock (st : C09St) (h s : Nat) : Option C09Sock := st.socks.find? (fun k => k.host == h && k.slot == s)
+
+def c09UpdSock (st : C09St) (h s : Nat) (f : C09Sock → C09Sock) : C09St :=
+  { st with socks := st.socks.map (fun k => if k.host == h && k.slot == s then f k else k) }
+
+def ipOf (a : String) : String := match a.splitOn ":" with | [ip, _] => ip | _ => ""
+
+/-- does socket `k` qualify as a target of send `σ`? -/
+def c09Targets (σ : C09Send) (k : C09Sock) : Bool :=
+  let dip := ipOf σ.dst
+  let dport := (portOf σ.dst).toNat?.getD 0
+  -- the peer filter is applied on arrival: a connect() made after the send may not have been in force
+  let filt := match k.connected with | some t => t == σ.origin || k.connStep ≥ σ.step | none => true
+  filt && k.port == dport &&
+  (if dip == "lo" then k.host == σ.srcHost
+   else if dip == "bc" then σ.bcastOn && k.bindIp == "any"
+   else if dip.startsWith "mc" then
+     k.bindIp == "any" && σ.members.contains (k.host, dport) && (k.host != σ.srcHost || σ.mloop)
+   else if dip.startsWith "h" then k.host == hostTok dip && k.bindIp == "any"
+   else false)
+
+def c09Recv (st : C09St) (ln : Nat) (h s buflen : Nat) (obs : List String) : C09St :=
+  match obs with
+  | ["ok", n, origin, hex] =>
+    let got := if hex == "-" then "" else hex
+    let n := n.toNat?.getD 0
+    match c09Sock st h s with
+    | none => st
+    | some k =>
+      -- the id is only visible with a buffer of ≥ 2 bytes
+      if buflen < 2 then { st with blindReads := st.blindReads ++ [(h, s)] } else
+      match msgId got with
+      | none => st.fail ln "received a datagram that was never sent (no id)"
+      | some id =>
+        match st.sends.find? (·.id == id) with
+        | none => st.fail ln s!"received datagram {id} that was never sent"
+        | some σ =>
+          let want := String.ofList (σ.payload.toList.take (2 * buflen))
+          let st := if got != want || n != want.length / 2 then st.fail ln s!"datagram {id}: payload altered or wrongly cut (got {got}, sent {σ.payload}, buffer {buflen})" else st
+          let st := if origin != σ.origin then st.fail ln s!"datagram {id}: reported source {origin}, sent from {σ.origin}" else st
+          let st := if !c09Targets σ k then st.fail ln s!"datagram {id} sent to {σ.dst} was delivered to h{h} port {k.port} (bind {k.bindIp}) which it does not target" else st
+          let st := if st.got.contains (h, s, id) then st.fail ln s!"datagram {id} delivered twice to the same socket" else st
+          { st with got := st.got ++ [(h, s, id)] }
+  | _ => st
+
+def c09Step (st : C09St) (x : Nat × List String × List String) : C09St :=
+  let (ln, op, obs) := x
+  match op with
+  | ["ctl", "step"] => { st with step := st.step + 1 }
+  | [h, "udp_bind", s, a] =>
+    match obs with
+    | ["ok", p] =>
+      let hh := hostTok h
+      let port := p.toNat?.getD 0
+      let again := st.everDropped.contains (hh, port)
+      { st with socks := st.socks ++ [{ host := hh, slot := slotTok s, bindIp := ipOf a, port := port, sinceStep := st.step, disturbed := again }] }
+    | _ => st
+  | [h, "drop", s] =>
+    if obs != ["ok"] then st else
+    match c09Sock st (hostTok h) (slotTok s) with
+    | none => st
+    | some k =>
+      { st with socks := st.socks.filter (fun x => !(x.host == k.host && x.slot == k.slot)),
+                everDropped := st.everDropped ++ [(k.host, k.port)],
+                groups := st.groups.map (fun g => (g.1, g.2.filter (fun m => m != (k.host, k.port)))) }
+  | [h, "udp_connect", s, a] => if obs == ["ok"] then c09UpdSock st (hostTok h) (slotTok s) (fun k => { k with connected := some a, disturbed := true, connStep := st.step }) else st
+  | [h, "udp_bcast", s, on] => if obs == ["ok"] then c09UpdSock st (hostTok h) (slotTok s) (fun k => { k with bcast := on == "1" }) else st
+  | [h, "udp_mloop", s, on] => if obs == ["ok"] then c09UpdSock st (hostTok h) (slotTok s) (fun k => { k with mloop := on == "1" }) else st
+  | [h, "udp_join", s, g, _] =>
+    if obs != ["ok"] then st else
+    match c09Sock st (hostTok h) (slotTok s) with
+    | none => st
+    | some k =>
+      let key := (g, k.port)
+      let cur := match st.groups.find? (·.1 == key) with | some p => p.2 | none => []
+      let cur := if cur.contains (k.host, k.port) then cur else cur ++ [(k.host, k.port)]
+      { st with groups := (st.groups.filter (·.1 != key)) ++ [(key, cur)] }
+  | [h, "udp_leave", s, g, _] =>
+    match c09Sock st (hostTok h) (slotTok s) with
+    | none => st
+    | some k =>
+      let key := (g, k.port)
+      let cur := match st.groups.find? (·.1 == key) with | some p => p.2 | none => []
+      let isMember := cur.contains (k.host, k.port)
+      if obs == ["ok"] then
+        let st := if !isMember then st.fail ln "leave succeeded for a group that was never joined" else st
+        { st with groups := st.groups.map (fun p => if p.1 == key then (p.1, p.2.filter (· != (k.host, k.port))) else p) }
+      else if obs == ["err", "addrnotavailable"] && isMember then st.fail ln "leave of a joined group failed"
+      else st
+  | [h, "udp_send", s, dst, hex] =>
+    let hh := hostTok h
+    match c09Sock st hh (slotTok s), obs with
+    | some k, ["ok", _] =>
+      let dip := ipOf dst
+      let origin := if dip == "lo" then s!"lo:{k.port}" else if k.bindIp == "any" then s!"h{hh}:{k.port}" else s!"{k.bindIp}:{k.port}"
+      let dport := (portOf dst).toNat?.getD 0
+      let members := match st.groups.find? (·.1 == (dip, dport)) with | some p => p.2 | none => []
+      -- multicast loop is a property of the sender host's socket bound to the destination port
+      let loopSock := st.socks.find? (fun x => x.host == hh && x.port == dport)
+      let mloop := match loopSock with | some x => x.mloop | none => true
+      match msgId (if hex == "-" then "" else hex) with
+      | some id => { st with sends := st.sends ++ [{ id := id, srcHost := hh, origin := origin, dst := dst, payload := hex,
+                                                       bcastOn := k.bcast, mloop := mloop, members := members, step := st.step }] }
+      | none => st
+    | some k, ["err", "permissiondenied"] =>
+      if ipOf dst == "bc" && k.bcast then st.fail ln "broadcast send refused although SO_BROADCAST is enabled" else st
+    | _, _ => st
+  | [h, "udp_tryrecv", s, n] => c09Recv st ln (hostTok h) (slotTok s) (n.toNat?.getD 0) obs
+  | [h, "udp_recv", s, n] => c09Recv st ln (hostTok h) (slotTok s) (n.toNat?.getD 0) obs
+  | _ => st
+
+def oracleC09 (lines : List String) : OResult :=
+  let cfgT := match lines.find? (·.startsWith "CFG ") with | some l => toks l | none => []
+  let cap := kvNat cfgT "udpcap" 64
+  let st := (opObsPairs lines).foldl c09Step {}
+  let drained := lines.any (· == "OP ctl mark drained")
+  let res := st.res
+  -- exactly once on a healthy link within capacity: plain unicast to a socket that existed before the
+  -- send, was never connected / dropped / re-bound, with a queue that cannot have overflowed
+  let res := if res.ok && drained && cap ≥ 64 && st.sends.length < 60 then
+      match st.sends.find? (fun σ =>
+        (ipOf σ.dst).startsWith "h" &&
+        st.socks.any (fun k => !k.disturbed && k.sinceStep < σ.step && !st.blindReads.contains (k.host, k.slot) &&
+          c09Targets σ k && !st.got.contains (k.host, k.slot, σ.id))) with
+      | some σ => { res with ok := false, detail := s!"datagram {σ.id} to {σ.dst} was never delivered although the link is healthy and the queue had room" }
+      | none => res
+    else res
+  { res with cov := (if st.sends.any (fun σ => (ipOf σ.dst).startsWith "mc") then ["o:mcast"] else []) ++
+                    (if st.sends.any (fun σ => ipOf σ.dst == "bc") then ["o:bcast"] else []) ++
+                    (if st.got.length > 5 then ["o:recv"] else []) }
+
 def oracleRaw (prop : String) (lines : List String) (modelCov : List String) : OResult :=
   match prop with
   | "C02" => oracleC02 lines modelCov
@@ -808,6 +977,7 @@ def oracleRaw (prop : String) (lines : List String) (modelCov : List String) : O
   | "C08" => oracleC08 lines
   | "C15" => oracleC15 lines
   | "C14" => oracleC14 lines
+  | "C09" => oracleC09 lines
   | _ => {}
 
 /-- Properties whose scenario families never reach a documented panic: a panic of the
